@@ -49,6 +49,28 @@ def regen_item_key(ctx):
 GENERATORS = list(globals().get("GENERATORS", [])) + [regen_item_key]
 
 
+# --- tie of kind (1) (task W32): Gen/NilAddAttr.lean is regenerated from ItemAttributeList._add_attribute_item (the unique-name loop,
+# `while True:` with explicit fuel) and proved equal to the model's findFree / addAttr (Proofs/NilAddAttrGenEq.lean)
+LEAN_TARGETS = LEAN_TARGETS + ["OdxVerif.Props.C16GenAddAttr"]
+THEOREMS = THEOREMS + [P + t for t in ["gen_addAttrName_eq", "C16_gen_add_attribute_name", "C16_gen_never_out_of_fuel",
+                                       "C16_gen_add_attr_model", "C16_gen_name_choice"]]
+TRUSTED = TRUSTED + ["translator harness/extract/py2lean.py for ItemAttributeList._add_attribute_item: `while True:` = at most `fuel` iterations "
+                     "(.ok none = out of fuel, proved impossible for fuel > number of names for which hasattr succeeds), hasattr(self, .) of the "
+                     "object before the call = the parameter `taken` (the model's reserved names + keys), self._get_item_key = the parameter `key` "
+                     "(instantiated with the generated _get_item_key), f\"{i}\" of a non-negative int = Nat.toDigits 10, s.endswith(\"_\") = "
+                     "List.isSuffixOf, the final store self._item_dict[item_name] = item = the returned name"]
+
+
+def regen_add_attr(ctx):
+    """Gen/NilAddAttr.lean from the current source; Unsupported (source left the translator's subset) = broken obligation"""
+    import common
+    from extract import py2lean
+    py2lean.regenerate_addattr(common.REPO, common.VERIF)
+
+
+GENERATORS = GENERATORS + [regen_add_attr]
+
+
 @dataclass
 class It:
     short_name: str
